@@ -3,6 +3,7 @@ import HpxVerif.Lemmas.NumReal
 import HpxVerif.Lemmas.ProjReal
 import Mathlib.Tactic.Positivity
 import Mathlib.Analysis.Real.Pi.Bounds
+import Mathlib.Analysis.SpecialFunctions.Trigonometric.Bounds
 
 /-!
 # C16 — the `largest_center_to_vertex_distance*` helpers over ℝ (release profile: `debug = false`)
@@ -678,5 +679,150 @@ theorem largestC2VWithRadius_lt_at_centre (depth : Nat) (hd1 : 1 ≤ depth) (hd2
     rw [if_neg (not_le.mpr hhi), if_pos hlo, if_neg (not_le.mpr (by linarith)), if_pos (by linarith),
       min_eq_left hhi.le]
     unfold topEnv; nlinarith
+
+/-! ### the signs of the constants of `ConstantsC2V::new(depth)` over ℝ, every depth -/
+
+theorem r_nside (d : Nat) : (Num.ofNat (1 <<< d) : ℝ) = 2 ^ d := by
+  rw [r_ofNat, Nat.one_shiftLeft]; push_cast; rfl
+
+/-- `1/nside ∈ (0, 1]` -/
+theorem distCw_range (d : Nat) : 0 < (1 : ℝ) / 2 ^ d ∧ (1 : ℝ) / 2 ^ d ≤ 1 := by
+  have h : (1 : ℝ) ≤ 2 ^ d := one_le_pow₀ (by norm_num)
+  exact ⟨by positivity, by rw [div_le_one (by positivity)]; exact h⟩
+
+theorem r_cosLsc : (Num.cosLatOfSquareCell : ℝ) = Real.sqrt (2 / 3 * (4 / π)) := rfl
+
+theorem new_slopeEqr_eq (d : Nat) :
+    (Csts.new d : Csts ℝ).slopeEqr =
+      ((tl - Real.arcsin ((1 - 1 / 2 ^ d) * (2 / 3))) - 4 / π * (1 / 2 ^ d) * Real.sqrt (2 / 3 * (4 / π))) / (tl - lsc) := by
+  show (((Num.transitionLat : ℝ) - Num.asin ((Num.one - Num.one / Num.ofNat (1 <<< d)) * Num.transitionZ)) -
+    (Num.fourOverPi : ℝ) * (Num.one / Num.ofNat (1 <<< d)) * Num.cosLatOfSquareCell) /
+      ((Num.transitionLat : ℝ) - Num.latOfSquareCell) = _
+  rw [r_nside, r_one, r_tz, r_fourOverPi, r_cosLsc, r_asin]
+
+theorem new_coeffX2Eqr_eq (d : Nat) :
+    (Csts.new d : Csts ℝ).coeffX2Eqr =
+      (4 / π * (1 / 2 ^ d) * Real.sqrt (2 / 3 * (4 / π)) - 4 / π * (1 / 2 ^ d)) / (lsc * lsc) := by
+  show ((Num.fourOverPi : ℝ) * (Num.one / Num.ofNat (1 <<< d)) * Num.cosLatOfSquareCell -
+    (Num.fourOverPi : ℝ) * (Num.one / Num.ofNat (1 <<< d))) / pow2 (Num.latOfSquareCell : ℝ) = _
+  rw [r_nside, r_one, r_fourOverPi, r_cosLsc]; rfl
+
+/-- `coeff_x2_eqr < 0`: the parabola of the lower equatorial region opens downwards, as assumed -/
+theorem new_coeffX2Eqr_neg (d : Nat) : (Csts.new d : Csts ℝ).coeffX2Eqr < 0 := by
+  rw [new_coeffX2Eqr_eq]
+  have hpi := Real.pi_pos
+  have hδ := (distCw_range d).1
+  have hs := lsc_arg_lt_one
+  apply div_neg_of_neg_of_pos
+  · have : 0 < 4 / π * (1 / 2 ^ d) := by positivity
+    nlinarith
+  · exact mul_pos lsc_pos lsc_pos
+
+/-- `asin(2/3) − asin((1 − δ)·2/3) < 0.97·δ` for `0 < δ ≤ 1` -/
+theorem arcsin_diff_bound (δ : ℝ) (h0 : 0 < δ) (h1 : δ ≤ 1) :
+    Real.arcsin (2 / 3) - Real.arcsin ((1 - δ) * (2 / 3)) < 97 / 100 * δ := by
+  have hpi := Real.pi_pos
+  have hpi2 := Real.pi_lt_d2
+  set a := Real.arcsin (2 / 3) with ha
+  set b := Real.arcsin ((1 - δ) * (2 / 3)) with hb
+  have hy0 : 0 ≤ (1 - δ) * (2 / 3) := by nlinarith
+  have hy1 : (1 - δ) * (2 / 3) < 2 / 3 := by nlinarith
+  have hb0 : 0 ≤ b := Real.arcsin_nonneg.mpr hy0
+  have hba : b < a := Real.arcsin_lt_arcsin (by linarith) hy1 (by norm_num)
+  have ha3 : a ≤ π / 3 := tl_le_pi3
+  have hsa : Real.sin a = 2 / 3 := Real.sin_arcsin (by norm_num) (by norm_num)
+  have hsb : Real.sin b = (1 - δ) * (2 / 3) := Real.sin_arcsin (by linarith) (by linarith)
+  have hca0 : 0 ≤ Real.cos a := Real.cos_nonneg_of_neg_pi_div_two_le_of_le (by linarith) (by linarith)
+  have hca2 : Real.cos a ^ 2 = 5 / 9 := by
+    have := Real.cos_sq_add_sin_sq a
+    rw [hsa] at this; linarith
+  have hca : 745 / 1000 ≤ Real.cos a := by nlinarith
+  have hc : Real.cos a ≤ Real.cos ((a + b) / 2) :=
+    Real.cos_le_cos_of_nonneg_of_le_pi (by linarith) (by linarith) (by linarith)
+  have hkey : Real.sin a - Real.sin b = 2 * Real.sin ((a - b) / 2) * Real.cos ((a + b) / 2) := Real.sin_sub_sin _ _
+  rw [hsa, hsb] at hkey
+  set x := (a - b) / 2 with hx
+  have hx0 : 0 < x := by rw [hx]; linarith
+  have hx1 : x ≤ 525 / 1000 := by rw [hx]; norm_num at hpi2; linarith
+  have hsx := Real.sin_gt_sub_cube hx0
+  have hsx' : 93 / 100 * x ≤ Real.sin x := by
+    have : x ^ 3 = x * (x * x) := by ring
+    have hxx : x * x ≤ 525 / 1000 * (525 / 1000) := mul_le_mul hx1 hx1 hx0.le (by norm_num)
+    nlinarith
+  have hprod : 93 / 100 * x * (745 / 1000) ≤ Real.sin x * Real.cos ((a + b) / 2) :=
+    mul_le_mul hsx' (hca.trans hc) (by norm_num) (by linarith [mul_pos (by norm_num : (0 : ℝ) < 93 / 100) hx0])
+  have hab : a - b = 2 * x := by rw [hx]; ring
+  rw [hab]
+  nlinarith
+
+/-- `4/π · √(8/(3π)) > 1.16` -/
+theorem dmin2_coeff_bound : 116 / 100 < 4 / π * Real.sqrt (2 / 3 * (4 / π)) := by
+  have hpi := Real.pi_pos
+  have hpi2 := Real.pi_lt_d2
+  norm_num at hpi2
+  have h1 : 1269 / 1000 < 4 / π := by rw [lt_div_iff₀ hpi]; nlinarith
+  have h2 : 92 / 100 ≤ Real.sqrt (2 / 3 * (4 / π)) := by
+    apply Real.le_sqrt_of_sq_le
+    rw [show (2 : ℝ) / 3 * (4 / π) = 8 / (3 * π) by field_simp; ring, le_div_iff₀ (by positivity)]
+    nlinarith
+  nlinarith
+
+/-- **`slope_eqr < 0` for every depth** (over ℝ): the upper equatorial envelope of the crate decreases with the
+    latitude -/
+theorem new_slopeEqr_neg (d : Nat) : (Csts.new d : Csts ℝ).slopeEqr < 0 := by
+  rw [new_slopeEqr_eq]
+  obtain ⟨h0, h1⟩ := distCw_range d
+  apply div_neg_of_neg_of_pos
+  · have hA := arcsin_diff_bound (1 / 2 ^ d) h0 h1
+    have hB := dmin2_coeff_bound
+    have : 116 / 100 * (1 / 2 ^ d) < 4 / π * (1 / 2 ^ d) * Real.sqrt (2 / 3 * (4 / π)) := by
+      have := mul_lt_mul_of_pos_right hB h0
+      linarith
+    show Real.arcsin (2 / 3) - _ - _ < 0
+    linarith
+  · linarith [lsc_lt_tl]
+
+/-- **unconditional**: at every depth `1 … 29`, for every band inside `[lsc, tl)` and every positive radius,
+    `largest_center_to_vertex_distance_with_radius(depth, lon, lat, r)` is strictly smaller than
+    `largest_center_to_vertex_distance(depth, lon, lat)` (exact arithmetic) -/
+theorem largestC2VWithRadius_lt_at_centre' (depth : Nat) (hd1 : 1 ≤ depth) (hd2 : depth ≤ 29) (lon lat r : ℝ)
+    (hr : 0 < r) (hlo : lsc ≤ |lat| - r) (hhi : |lat| + r < tl) :
+    ∃ v w, largestC2VWithRadius false depth lon lat r = some v ∧ largestC2V false depth lon lat = some w ∧ v < w :=
+  largestC2VWithRadius_lt_at_centre depth hd1 hd2 (new_slopeEqr_neg depth) lon lat r hr hlo hhi
+
+/-- `slope_npc ≥ 0` for every depth (over ℝ): `d_max` is a great-circle distance whose latitude difference is `d_min` -/
+theorem new_slopeNpc_nonneg (d : Nat) : 0 ≤ (Csts.new d : Csts ℝ).slopeNpc := by
+  obtain ⟨h0, h1⟩ := distCw_range d
+  have hpi := Real.pi_pos
+  simp only [Csts.new, spheDist, squaredHalfSegment, pow2, r_nside, r_one, r_two, r_half, r_asin, r_cos, r_sin, r_pi4,
+    r_ofNat]
+  set δ : ℝ := 1 / 2 ^ d with hδ
+  set latN := Real.arcsin (1 - (1 - δ) * (1 - δ) / ((3 : ℕ) : ℝ)) with hlatN
+  set dMin := latN - (Num.transitionLat : ℝ) with hdMin
+  have htl : (Num.transitionLat : ℝ) = Real.arcsin (2 / 3) := rfl
+  have hdMin0 : 0 ≤ dMin := by
+    rw [hdMin, htl, hlatN, sub_nonneg]
+    apply Real.monotone_arcsin
+    push_cast; nlinarith
+  have hlatN1 : latN ≤ π / 2 := Real.arcsin_le_pi_div_two _
+  have hlatN0 : -(π / 2) ≤ latN := Real.neg_pi_div_two_le_arcsin _
+  have htl0 : 0 < (Num.transitionLat : ℝ) := tl_pos
+  have hc1 : 0 ≤ Real.cos latN := Real.cos_nonneg_of_neg_pi_div_two_le_of_le hlatN0 hlatN1
+  have hc2 : 0 ≤ Real.cos (Num.transitionLat : ℝ) :=
+    Real.cos_nonneg_of_neg_pi_div_two_le_of_le (by linarith) (by rw [htl]; exact Real.arcsin_le_pi_div_two _)
+  apply div_nonneg
+  · rw [sub_nonneg]
+    have hs0 : 0 ≤ Real.sin (1 / 2 * dMin) :=
+      Real.sin_nonneg_of_nonneg_of_le_pi (by linarith) (by linarith)
+    have hle : Real.sin (1 / 2 * dMin) ≤ Real.sqrt (Real.sin (1 / 2 * dMin) * Real.sin (1 / 2 * dMin) +
+        Real.cos latN * Real.cos (Num.transitionLat : ℝ) *
+          (Real.sin (1 / 2 * (π / 4 * δ)) * Real.sin (1 / 2 * (π / 4 * δ)))) := by
+      apply Real.le_sqrt_of_sq_le
+      have := mul_nonneg (mul_nonneg hc1 hc2) (mul_self_nonneg (Real.sin (1 / 2 * (π / 4 * δ))))
+      nlinarith
+    have hmono := Real.monotone_arcsin hle
+    rw [Real.arcsin_sin (by linarith) (by linarith)] at hmono
+    linarith
+  · apply mul_nonneg (by positivity); linarith
 
 end Hpx.C2VReal
